@@ -31,15 +31,28 @@ SPEC = dict(
     workers=16,
     deadline={"quick": 240, "thorough": 2400},
     env={"GOMAXPROCS": "2"},
-    rule="8 scenarios of 2-3 real goroutines (writer(s), reader with two consecutive dumps, flush, level compaction, out-of-order merge, "
-         "drop, close) on a pre-loaded real shard run under a controlled scheduler whose scheduling points are the lock acquisitions of "
-         "engine, engine/immutable, engine/mutable and lib/scheduler; EVERY schedule with at most <bound> preemptions is executed "
-         "(depth-first over choice points, bounds iterated 0,1,(2)); each execution is checked against the acknowledged-write history; "
-         "evaluations = executions, distinct_nontrivial = distinct (scenario, schedule) pairs plus distinct outcomes",
+    rule="13 scenarios of 2-3 real goroutines (writer(s), reader with two consecutive dumps, ForceFlush, ONE TICK OF THE BACKGROUND "
+         "SNAPSHOT LOOP as an explicit thread with the memtable over its size limit, level compaction, full compaction, out-of-order merge, "
+         "DropMeasurement of the queried and of another measurement, Close) on a pre-loaded real shard run under a controlled scheduler whose "
+         "scheduling points are the lock acquisitions of engine, engine/immutable, engine/mutable and lib/scheduler. "
+         "S1-S5, S4a-d, S9: EVERY schedule with at most <bound> preemptions (at any of these points, plus one 'a timer fires now' choice) is "
+         "executed; switches at points where the running thread blocked or finished are unbounded. "
+         "S6, S7 (snapshot tick || ForceFlush || reader/writer), S8a, S8b (drop || reader || writer) are DELAY-BOUNDED: choice 0 follows a "
+         "family-first deterministic scheduler, every schedule with at most <bound> preemptions AND at most F switches away from that "
+         "scheduler at blocking/finishing points is executed (F = 1 quick, 2 thorough), no explicit timer choice; in S6/S7 preemptions are "
+         "offered only where the thread to be pre-empted is about to lock inside enableForceFlush, disableForceFlush, shouldSnapshot, "
+         "writeSnapshot, cloneReaders, writeRows, AddBothTSSPFiles, makeTSSPFiles, GetBothFilesRef (the snapshotLock / file-publication "
+         "seam); in S8a/S8b at every point. Depth-first over choice points, bounds iterated 0,1,(2); each execution is checked against the "
+         "acknowledged-write history; evaluations = executions, distinct_nontrivial = distinct (scenario, schedule) pairs plus distinct "
+         "outcomes; counters scenario_bounds_completed_<S> = (workers x bounds) that finished their share of <S>",
     assumptions=["sequential consistency between scheduling points; data races are outside this check",
                  "Go RWMutex writer preference is not modelled (a thread enters Lock only when the lock is free)",
                  "code of packages that are not rewritten (index, lib/*) runs atomically between points",
-                 "virtual time (testing/synctest): timers fire only when no thread is enabled"],
+                 "virtual time (testing/synctest): timers fire only when no thread is enabled",
+                 "S6/S7: the shard's own 100 ms snapshot ticker is gated off (its shouldSnapshot answers false); the background flush "
+                 "happens only as the scenario's tick thread, at most once per execution, triggered by the size limit (set to 1 byte)",
+                 "series of the scenario alphabet are created in the index one at a time before the preload (fixed series ids; the "
+                 "mergeset index assigns ids from unscheduled queue goroutines)"],
 )
 
 
@@ -95,7 +108,9 @@ MANIFEST = dict(
     level="exploration", engine="sched",
     technique="stateless model checking of the real implementation: controlled scheduler over real goroutines, exhaustive preemption-bounded DFS of interleavings, history oracle per execution",
     text="All interleavings of small writer/reader/flush/compaction/merge/close harnesses with at most 1 (quick) / 2 (thorough) preemptions at lock "
-         "acquisitions are executed on the real engine; every execution is checked for lost acknowledged points, torn or stale values, "
-         "duplicates, disappearing rows, panics and deadlocks.",
+         "acquisitions are executed on the real engine, plus delay-bounded enumerations (<= 1/2 preemptions and <= 1/2 departures from a "
+         "family-first scheduler) of background-snapshot-tick || ForceFlush || reader/writer and DropMeasurement || reader || writer; every "
+         "execution is checked for lost acknowledged points, torn or stale values, duplicates, disappearing rows (unless dropped), panics and "
+         "deadlocks. A run that hits its deadline reports exhaustive=false and which (scenario, bound) shares were completed.",
     note="Trusts the sync shim (overlay rewrite of four packages), testing/synctest quiescence detection, and the history oracle.",
 )
